@@ -50,12 +50,18 @@ static void install(void) {
 #if defined(MODE_NEW)
 static char text[2][TEXT_MAX + 1];
 static _Bool has_colon[2];
+static int tlen[2];          /* strlen of the text */
 static puint16 port[2];
 static PSocketAddress *res[2];
 
 static void setup(int k) {
   _Bool ended = 0;
-  for (int i = 0; i < TEXT_MAX; i++) { text[k][i] = (char) ND_UCHAR(); if (text[k][i] == 0) ended = 1; if (!ended && text[k][i] == ':') has_colon[k] = 1; }
+  tlen[k] = TEXT_MAX;
+  for (int i = 0; i < TEXT_MAX; i++) {
+    text[k][i] = (char) ND_UCHAR();
+    if (!ended && text[k][i] == 0) { ended = 1; tlen[k] = i; }
+    if (!ended && text[k][i] == ':') has_colon[k] = 1;
+  }
   text[k][TEXT_MAX] = 0;
   port[k] = (puint16) ND_UINT();
   vmn[k].text = text[k];
@@ -108,6 +114,18 @@ static void check(int k) {
   }
 }
 static void nested_call(void) { res[1] = p_socket_address_new(text[1], port[1]); }
+/* the success equivalence must hold for EVERY text length (the platform, not the library, decides what a numeric address is:
+ * "addr%scope" strings are longer than INET6_ADDRSTRLEN-1) */
+static void length_witnesses(void) {
+#if TEXT_MAX >= 64
+  if (res[0] != NULL && tlen[0] == 45) VWITNESS("length 45 accepted by the platform");
+  if (res[0] != NULL && tlen[0] == 46) VWITNESS("length 46 accepted by the platform");
+  if (res[0] != NULL && tlen[0] == 64) VWITNESS("length 64 accepted by the platform");
+  if (res[0] != NULL && tlen[0] == 64 && has_colon[0]) VWITNESS("length 64 with ':' accepted through getaddrinfo");
+  if (res[0] != NULL && tlen[0] >= 46 && !has_colon[0]) VWITNESS("length >= 46 without ':' accepted through inet_pton");
+#endif
+  if (tlen[0] == 0) VWITNESS("empty text");
+}
 
 void harness(void) {
   install();
@@ -121,6 +139,7 @@ void harness(void) {
   in_first = 0;
   VASSERT(vm_live == (res[0] != NULL ? 1 : 0) + (res[1] != NULL ? 1 : 0), "exactly the returned objects stay allocated");
   check(0);
+  length_witnesses();
 #ifdef REENT
   if (nested_done) {
     check(1);
